@@ -1724,8 +1724,71 @@ fn c07_crash_during_wal_repair(dir: PathBuf) -> ScenFut<'static> {
     })
 }
 
+/// The flush task has looked at the queue for the last time and is about to go idle; a memtable
+/// is rotated in exactly then and the task is woken the way the store does it.
+fn c17_wakeup_lost_before_idle(dir: PathBuf) -> ScenFut<'static> {
+    Box::pin(async move {
+        let res = std::thread::spawn(move || -> Result<(), String> {
+            let rt = tokio::runtime::Builder::new_multi_thread().worker_threads(4).enable_all().build().map_err(|e| e.to_string())?;
+            rt.block_on(async move {
+                surrealkv::verif::set_manual_background(false);
+                let cfg = Cfg { memtable_stall: 2, ..base_cfg() };
+                let t = std::sync::Arc::new(cfg.open(&dir).map_err(|e| e.to_string())?);
+                let ctl = crate::e3::ctl();
+                ctl.reset();
+                let gate = ctl.arm_gate("task.flush.before_idle");
+                put(&t, &[(b"a", b"1")]).await?;
+                t.verif_rotate().map_err(|e| e.to_string())?;
+                t.verif_wake_background_like_the_store();
+                let g2 = gate.clone();
+                if !tokio::task::spawn_blocking(move || g2.wait_parked(5000)).await.unwrap_or(false) {
+                    gate.release();
+                    ctl.reset();
+                    surrealkv::verif::set_manual_background(true);
+                    return Err("harness: the flush task never reached task.flush.before_idle".into());
+                }
+                // the task is parked after its last look at the queue: a new immutable memtable appears
+                put(&t, &[(b"b", b"2")]).await?;
+                t.verif_rotate().map_err(|e| e.to_string())?;
+                t.verif_wake_background_like_the_store();
+                gate.release();
+                // bounded progress: the pending memtable must get flushed without any further wake-up
+                let mut left = usize::MAX;
+                for _ in 0..400 {
+                    tokio::time::sleep(std::time::Duration::from_millis(10)).await;
+                    left = t.verif_layout().map(|l| l.immutables).unwrap_or(usize::MAX);
+                    if left == 0 {
+                        break;
+                    }
+                }
+                ctl.reset();
+                surrealkv::verif::set_manual_background(true);
+                if let Ok(t) = std::sync::Arc::try_unwrap(t) {
+                    close(t).await;
+                }
+                if left != 0 {
+                    return Err(format!(
+                        "the flush task was at task.flush.before_idle (after its last look at the queue, still marked running) when a memtable was rotated in and the task was woken the way the store does it; 4 s later {} immutable memtable(s) are still unflushed and the task is idle: with a write-stall limit of {} the next writers wait forever",
+                        left, 2
+                    ));
+                }
+                Ok(())
+            })
+        })
+        .join()
+        .map_err(|_| "scenario thread panicked".to_string())?;
+        res
+    })
+}
+
 pub fn all() -> Vec<Scenario> {
     vec![
+        Scenario {
+            id: "C17-wakeup-lost-before-idle",
+            property: "C17",
+            title: "a memtable is rotated in while the flush task is between its last look at the queue and going idle",
+            run: c17_wakeup_lost_before_idle,
+        },
         Scenario {
             id: "C07-crash-during-wal-repair",
             property: "C07",
